@@ -339,9 +339,25 @@ fn case(m: &mut Mon, r: &mut Rng, idx: u64) {
                     let hw = (nl[0] as f64) / (dl[0] as f64) * if neg { -1.0 } else { 1.0 };
                     ensure!(q.to_f64().value() == hw, "misrounded", "RBig::to_f64 = {:e} but hardware division gives {:e}", q.to_f64().value(), hw);
                 }
-                // fast variants are outside the property (documented as possibly off in the last bits): no-panic only
-                catch(|| q.to_f64_fast()).or_else(|p| fail("unexpected_panic", p))?;
-                catch(|| q.to_f32_fast()).or_else(|p| fail("unexpected_panic", p))?;
+                // fast variants: documented as "the mantissa can be off by one bit"; the property only asks for a bounded
+                // error, so the monitor allows 4 ulp of the exact value and demands a finite result for a value that is
+                // far from the overflow threshold (a looser test than the documentation, never a tighter one)
+                let f64f = catch(|| q.to_f64_fast()).or_else(|p| fail("unexpected_panic", p))?;
+                let f32f = catch(|| q.to_f32_fast()).or_else(|p| fail("unexpected_panic", p))?;
+                for (what, got, mant, emax, emin) in [("to_f64_fast", f64f, 53i64, 1024i64, -1074i64), ("to_f32_fast", f32f as f64, 24, 128, -149)] {
+                    if x.is_zero() {
+                        ensure!(got == 0.0, "fast_bound", "{}(0) = {:e}", what, got);
+                        continue;
+                    }
+                    let lg = dvh::ival::floor_log(&x.abs(), 2);
+                    if lg >= emax - 1 {
+                        continue; // at the overflow threshold: either infinity or the largest finite value is acceptable
+                    }
+                    ensure!(got.is_finite(), "fast_bound", "{} = {:e} for a finite value of magnitude 2^{}", what, got, lg);
+                    let ulp = pow_q(2, (lg - mant + 1).max(emin));
+                    let gq = ieee::q_of_f64(got).unwrap();
+                    ensure!((&gq - &x).abs() <= &ulp * BigRational::from_integer(BigInt::from(4)), "fast_bound", "{} = {:e} is more than 4 ulp away from the value", what, got);
+                }
                 // TryFrom<RBig> for floats: success only when exact
                 if let Ok(f) = f64::try_from(q.clone()) {
                     ensure!(ieee::q_of_f64(f) == Some(x.clone()), "lossy_success", "f64::try_from(RBig) = {:e} is not the rational", f);
